@@ -111,8 +111,8 @@ func checkC07(c *chk.Ctx) {
 		if err != nil {
 			c.Broken("bad exported case: %v", err)
 		}
-		ac := &acase{ex: e, pkg: fmt.Sprintf("gen/t%d", i), top: e.Schema.Files[0].Services[0].Methods[0].In}
-		em, err := w.Emit(set, e.Schema, work.EmitOpts{Plugins: []string{"go-http", "ts-client", "ts-server"}})
+		ac := &acase{ex: e, pkg: fmt.Sprintf("gen/t%d", i), top: svcFile(e.Schema).Services[0].Methods[0].In}
+		em, err := w.Emit(set, e.Schema, work.EmitOpts{Plugins: []string{"go-http", "ts-client", "ts-server"}, PerFile: true})
 		if err != nil {
 			c.Broken("%v", err)
 		}
